@@ -98,7 +98,7 @@ class Closure:
 
 class Frame:
     __slots__ = ('info', 'locals', 'enclosing', 'gen', 'first_arg', 'defcls', 'loop_counter', 'call_counter',
-                 'reduce_counter', 'reduce_site', 'join_counter', 'model_site')
+                 'reduce_counter', 'reduce_site', 'join_counter', 'model_site', 'loop_index', 'map_counter')
 
     def __init__(self, info, locals_, enclosing, first_arg=None, defcls=None):
         self.info = info
@@ -113,6 +113,15 @@ class Frame:
         self.reduce_site = None
         self.join_counter = 0
         self.model_site = None
+        self.loop_index = {}
+        self.map_counter = 0
+
+
+class PartialObj:
+    """functools.partial of an interpreted callable / with symbolic arguments"""
+
+    def __init__(self, func, args, keywords):
+        self.func, self.args, self.keywords = func, tuple(args), dict(keywords)
 
 
 class SuperProxy:
@@ -432,7 +441,7 @@ class Interp:
             return models.call_sym_method(self, f.recv, f.name, list(args), kwargs)
         if isinstance(f, Closure):
             return self.run_function(f.info, f.enclosing, f.defaults, f.kwdefaults, args, kwargs, f.defcls_hint)
-        if isinstance(f, functools.partial):
+        if isinstance(f, (functools.partial, PartialObj)):
             kw = dict(f.keywords)
             kw.update(kwargs)
             return self.call(f.func, list(f.args) + list(args), kw)
@@ -538,6 +547,18 @@ class Interp:
         if m is not None:
             self.st.used_models.add(_qn(cls))
             return m(self, args, kwargs)
+        if issubclass(cls, enum.Enum) and len(args) == 1 and not kwargs and isinstance(args[0], SChoice):
+            # Enum(value) for one of finitely many values: the member per alternative
+            members = []
+            for alt in args[0].alts:
+                try:
+                    members.append(cls(alt))
+                except ValueError:
+                    members = None
+                    break
+            if members is not None:
+                return SChoice(args[0].idx, members)
+            args = [self.resolve(args[0])]
         if issubclass(cls, enum.Enum) or not _is_repo_class(cls):
             if issubclass(cls, BaseException) and not _is_repo_class(cls):
                 try:
@@ -583,6 +604,10 @@ class Interp:
                 fn = obj.src_fn if name == 'src' else obj.pos_fn
                 return EngineFn(lambda k, fn=fn: wrap(fn(to_z3(k))))
         if isinstance(obj, Sym):
+            if isinstance(obj, SChoice) and all(isinstance(a, enum.Enum) for a in obj.alts) \
+                    and name in ('name', 'value', '_name_', '_value_'):
+                # plain data attribute of one of finitely many enum members: no case split needed
+                return SChoice(obj.idx, [getattr(a, name) for a in obj.alts])
             if isinstance(obj, (SOpt, SChoice)):
                 return self.getattr(self.resolve(obj), name)
             return SymMethod(obj, name)
@@ -783,6 +808,15 @@ class Interp:
             a = SInt(z3.If(a.t, 1, 0))
         if isinstance(b, SBool):
             b = SInt(z3.If(b.t, 1, 0))
+        if isinstance(a, Opaque) or isinstance(b, Opaque):
+            # an operator of an opaque object: the interface's method, when it describes one
+            dunder = {ast.Add: 'add', ast.Sub: 'sub', ast.Mult: 'mul', ast.Mod: 'mod', ast.Div: 'truediv',
+                      ast.FloorDiv: 'floordiv', ast.BitOr: 'or', ast.BitAnd: 'and'}.get(opcls)
+            if dunder and isinstance(a, Opaque) and self.reg.opaque_has(self, a, '__%s__' % dunder):
+                return self.reg.call_opaque(self, a, '__%s__' % dunder, [b], {})
+            if dunder and isinstance(b, Opaque) and self.reg.opaque_has(self, b, '__r%s__' % dunder):
+                return self.reg.call_opaque(self, b, '__r%s__' % dunder, [a], {})
+            raise Unsupported('binary operator on opaque object')
         sa, sb = isinstance(a, Sym), isinstance(b, Sym)
         if (sa or sb) and not (isinstance(a, Opaque) or isinstance(b, Opaque)):
             # a user-defined operator of a repository / model class with a symbolic operand (p / name)
@@ -790,14 +824,6 @@ class Interp:
             if r is not NotImplemented:
                 return r
         if not sa and not sb:
-            if isinstance(a, Opaque) or isinstance(b, Opaque):
-                # operators of opaque objects are methods of their interface (__truediv__, __add__, ...)
-                dn = _DUNDER.get(opcls)
-                if dn is not None and isinstance(a, Opaque) and self.reg.opaque_has(self, a, dn[0]):
-                    return self.reg.call_opaque(self, a, dn[0], [b], {})
-                if dn is not None and isinstance(b, Opaque) and self.reg.opaque_has(self, b, dn[1]):
-                    return self.reg.call_opaque(self, b, dn[1], [a], {})
-                raise Unsupported('binary operator on opaque object')
             if opcls is ast.Mod and isinstance(a, str) and contains_sym(b):
                 return SStr(self.st.fresh_str('fmt'))
             if opcls is ast.Add and isinstance(a, (list, tuple)) and type(a) is type(b):
@@ -981,6 +1007,9 @@ class Interp:
             if a is None or b is None or ka != kb:
                 raise PyRaise(TypeError('ordering comparison not supported between these types'))
             raise Unsupported('ordering comparison on %s' % ka)
+        if isinstance(a, Opaque) and isinstance(b, Opaque) and getattr(a._pv_iface, 'sort_key', None) \
+                and getattr(b._pv_iface, 'sort_key', None):
+            return self.compare(opcls, self.getattr(a, a._pv_iface.sort_key), self.getattr(b, b._pv_iface.sort_key))
         if isinstance(a, Opaque) or isinstance(b, Opaque):
             raise Unsupported('ordering on opaque')
         try:
@@ -1026,6 +1055,12 @@ class Interp:
             r = same_object(a, b)
             if r is not None:
                 return r
+        if a is not b and isinstance(a, Opaque) and isinstance(b, Opaque) and a._pv_uid == b._pv_uid \
+                and a._pv_index and len(a._pv_index) == len(b._pv_index) \
+                and all(x.sort() == y.sort() for x, y in zip(a._pv_index, b._pv_index)):
+            # two views of the elements of one symbolic family (list elements, results of a pure method):
+            # the same object iff the indices are equal (distinct indices: distinct objects, DESIGN 2.5)
+            return wrap(z3.And(*[x == y for x, y in zip(a._pv_index, b._pv_index)]))
         return a is b
 
     def not_(self, v):
@@ -1278,8 +1313,24 @@ class Interp:
                 if isinstance(kk, SChoice):
                     kk = self.resolve(kk)
                 if contains_sym(kk, 0):
-                    raise Unsupported('dict display with symbolic key')
-                d[kk] = self.eval(v, frame)
+                    # a symbolic key: the dict becomes a symbolic map (values not tracked)
+                    from . import models
+                    if not isinstance(d, models.SMap):
+                        from .api import Str as _StrTy, Int as _IntTy
+                        kv = models.SMap._key_value(self, kk)
+                        if isinstance(kv, (SStr, str)):
+                            kty = _StrTy
+                        elif isinstance(kv, (SInt, int)) and not isinstance(kv, bool):
+                            kty = _IntTy
+                        else:
+                            raise Unsupported('dict display with symbolic key %r' % (kk,))
+                        d = models.smap_of_dict(self, kty, None, d)
+                    d.setitem(self, kk, self.eval(v, frame))
+                    continue
+                if isinstance(d, dict):
+                    d[kk] = self.eval(v, frame)
+                else:
+                    d.setitem(self, kk, self.eval(v, frame))
         return d
 
     def e_Subscript(self, node, frame):
@@ -1304,6 +1355,8 @@ class Interp:
             return models.sym_getitem(self, obj, idx)
         if isinstance(obj, Opaque):
             return self.reg.call_opaque(self, obj, '__getitem__', [idx], {})
+        if isinstance(obj, models.SMap):
+            return obj.getitem(self, idx)
         if isinstance(obj, (list, tuple)) and isinstance(idx, SInt):
             # case split over the concrete positions
             n = len(obj)
@@ -1654,7 +1707,8 @@ class Interp:
                 return seqs.copy(seqs.concat(self, list(cur), val))
             cur.extend(list(self.iterate(val)))
             return cur
-        if opcls is ast.Add and isinstance(cur, SList) and not cur.immutable:
+        if opcls is ast.Add and isinstance(cur, SList):
+            # list += iterable mutates in place (grow-only also for plain symbolic sequences)
             if isinstance(val, (SOpt, SChoice)):
                 val = self.resolve(val)
             from . import seqs
